@@ -128,7 +128,7 @@ def file_start_variants():
     starts = ["", "\ufeff", "\ufeff\r\n", "#!/usr/bin/env run-cargo-script\n", "#![allow(unused)]\n", "\ufeff// é\n"]
     bodies = ['info!("first line");\nfn f() {\n    warn!(a = 1; "second {}", 2);\n}\n',
               'fn f() {\n\tinfo!(target: "t", "tab indented é");\n\terror!("[ref: 9] has one");\n}\n',
-              'fn f() { info!("one"); info!("two on the same line"); }']
+              'fn f() { info!("one"); info!("two on the same line"); }', "", "\n\n", "   ", "// only a comment", 'info!("x")']
     for st in starts:
         for b in bodies:
             for crlf in (False, True):
